@@ -242,6 +242,24 @@ def _literal_elts(itsym, depth=0):
     return None
 
 
+def _enumerate_parts(itsym):
+    """(iterable, start) when itsym is enumerate(X), enumerate(X, c) or enumerate(X, start=c) with a constant c"""
+    if isinstance(itsym, ast.Call) and isinstance(itsym.func, ast.Name) and itsym.func.id == 'enumerate' and 1 <= len(itsym.args) <= 2:
+        start = None
+        if len(itsym.args) == 2:
+            start = itsym.args[1]
+        for k in itsym.keywords:
+            if k.arg == 'start':
+                start = k.value
+            else:
+                return None
+        if start is None:
+            return itsym.args[0], 0
+        if isinstance(start, ast.Constant) and isinstance(start.value, int):
+            return itsym.args[0], start.value
+    return None
+
+
 def _is_mutable_display(sym):
     if isinstance(sym, (ast.List, ast.Dict, ast.Set, ast.ListComp, ast.DictComp, ast.SetComp)):
         return True
@@ -414,7 +432,8 @@ class PathSim:
                 st.events.append(Event('return', stmt, f, text='return', value=None, ep=st.ep, loops=st.loops))
                 return [(st, ('return', ast.Constant(value=None)))]
             out = []
-            if self.bool_returns and frame[2] == 0 and not isinstance(stmt.value, ast.Constant):
+            inl_pred = frame[2] > 0 and getattr(f.node, 'returns', None) is not None and norm(f.node.returns) == 'bool' and not f.is_module_body
+            if self.bool_returns and (frame[2] == 0 or inl_pred) and not isinstance(stmt.value, ast.Constant):
                 # a predicate: decide the returned condition, so that every path returns a constant truth value
                 for v, s, sig in self.cond(stmt.value, st, frame):
                     if sig is not None:
@@ -692,9 +711,16 @@ class PathSim:
                 if literal is not None:
                     elem = literal[k]
                 else:
-                    elem = ast.Name(id='<elem%d of %s>' % (k, norm(itsym)), ctx=ast.Load())
-                    elem._iter = itsym
-                    elem._k = k
+                    en = _enumerate_parts(itsym)
+                    if en is not None:
+                        inner = ast.Name(id='<elem%d of %s>' % (k, norm(en[0])), ctx=ast.Load())
+                        inner._iter = en[0]
+                        inner._k = k
+                        elem = ast.Tuple(elts=[ast.Constant(value=k + en[1]), inner], ctx=ast.Load())
+                    else:
+                        elem = ast.Name(id='<elem%d of %s>' % (k, norm(itsym)), ctx=ast.Load())
+                        elem._iter = itsym
+                        elem._k = k
                 s.events.append(Event('loop-iter', stmt, f, text='for-iter', extra=k, value=itsym, ep=s.ep,
                                       loops=s.loops))
                 for s1, sg in self.assign(stmt.target, elem, s, frame, stmt, quiet=True):
@@ -1192,6 +1218,10 @@ class PathSim:
                             grown = ast.List(elts=list(cur_.elts) + list(acc[0].elts), ctx=ast.Load())
                         if grown is not None and len(grown.elts) <= 24:
                             s2.env[(frame[1], recv.id)] = grown
+                if isinstance(recv, ast.Name) and isinstance(fn, ast.Attribute) and fn.attr == 'reverse' and not acc and not kw:
+                    cur_ = s2.env.get((frame[1], recv.id))
+                    if isinstance(cur_, ast.List):
+                        s2.env[(frame[1], recv.id)] = ast.List(elts=list(reversed(cur_.elts)), ctx=ast.Load())
                 # exceptions the rule wants modelled
                 if self.may_raise is not None:
                     for et in (self.may_raise(evn) or ()):
@@ -1699,6 +1729,10 @@ def eval_bool_sym(sym, facts):
 
 
 def deep_norm(sym, concat=False):
+    return norm(deep_ast(sym, concat)) if sym is not None else 'None'
+
+
+def deep_ast(sym, concat=False):
     """Normalised text in which locals that hold a fresh container display are replaced by that display.
     concat=True additionally rewrites every way of building a string from pieces - `''.join([a, b])`, `'{} {}'.format(a, b)`,
     f-strings, `'%s %s' % (a, b)` - as the plain concatenation `a + ' ' + b` (see concat_form)."""
@@ -1712,13 +1746,28 @@ def deep_norm(sym, concat=False):
             if isinstance(x.func, ast.Name) and x.func.id == 'len' and len(x.args) == 1 and isinstance(x.args[0], (ast.List, ast.Tuple)) \
                     and not any(isinstance(y, ast.Starred) for y in x.args[0].elts):
                 return ast.Constant(value=len(x.args[0].elts))      # the length of a list that is known element by element
+            if isinstance(x.func, ast.Name) and x.func.id in ('list', 'tuple', 'reversed') and len(x.args) == 1 and not x.keywords:
+                a0 = x.args[0]
+                if isinstance(a0, ast.Call) and isinstance(a0.func, ast.Name) and a0.func.id == 'reversed' and len(a0.args) == 1 and isinstance(a0.args[0], (ast.List, ast.Tuple)):
+                    a0 = ast.List(elts=list(reversed(a0.args[0].elts)), ctx=ast.Load())
+                if isinstance(a0, (ast.List, ast.Tuple)) and not any(isinstance(y, ast.Starred) for y in a0.elts):
+                    if x.func.id == 'reversed':
+                        return x
+                    return (ast.List if x.func.id == 'list' else ast.Tuple)(elts=list(a0.elts), ctx=ast.Load())
+            return x
+
+        def visit_Subscript(self, x):
+            x = self.generic_visit(x)
+            if isinstance(x.value, (ast.List, ast.Tuple)) and isinstance(x.slice, ast.Slice) and x.slice.lower is None and x.slice.upper is None \
+                    and x.slice.step is not None and norm(x.slice.step) == '-1':
+                return type(x.value)(elts=list(reversed(x.value.elts)), ctx=ast.Load())
             return x
     if sym is None:
-        return 'None'
+        return ast.Constant(value=None)
     t = T().visit(clone_ast(sym))
     if concat:
         t = concat_form(t)
-    return norm(t)
+    return t
 
 
 _STR_CALLS = ('color', 'str', 'repr', 'no_color', 'number_to_letter_id', 'format')
